@@ -654,7 +654,10 @@ register("C11", run_C11, module="Robotools.Props.C11",
          theorems=["Robotools.C11." + t for t in ("micro_hist_other", "micro_hist_log", "exec_hist_append", "condense_spec", "add_one_entry",
                    "remove_one_entry", "aspirate_one_entry", "dispense_one_entry", "record_ops_no_entry", "transfer_entries", "lvh_count",
                    "lvh_zero_no_split", "lvh_label", "report_order")], rule="mixed histories; history compared after every operation against deep copies")
-register("C16", run_C16, rule="each program executed on EvoWorklist, FluentWorklist and BaseWorklist against one device-parametric model")
+register("C16", run_C16, module="Robotools.Props.C16",
+         theorems=["Robotools.C16." + t for t in ("compile_erase", "step_sim", "device_simulation", "same_labware", "same_records", "eraseRec_asp_outside", "base_refuses_transfer", "base_emits_nothing")]
+                  + ["Robotools.Dev." + t for t in ("exec_erase", "emitAD_erase", "compileTransfer_erase", "compileDistribute_erase", "compileRD_erase", "excluded_in_range", "pos_valid", "prepareAD_pos")],
+         rule="each program executed on EvoWorklist, FluentWorklist and BaseWorklist against one device-parametric model")
 
 
 # ------------------------------------------------------------------ C19 get_trough_wells
